@@ -46,9 +46,45 @@ JUNK = [None, True, 0, -1, 1.5, "", "x", [], [None], {}, {"$ref": "#/components/
         {"type": "number", "default": 10 ** 400}, {"type": "number", "default": "inf"}, {"type": "number", "default": "-1e999"}, {"type": "integer", "default": 10 ** 400}]
 
 
+def _sink():
+    """A document that writes every keyword the generator reads at least once, also inside inline allOf / oneOf members, path-item
+    parameters, reusable parameters / bodies / responses and security: the node faults then reach every one of them."""
+    R = "#/components/schemas/"
+    return {
+        "openapi": "3.1.0", "info": {"title": "Sink", "version": "1.2.3", "description": "d"}, "servers": [{"url": "https://x.example/v1"}],
+        "tags": [{"name": "t", "description": "td"}], "security": [{"key": []}],
+        "paths": {"/a/{id}": {
+            "parameters": [{"name": "id", "in": "path", "required": True, "schema": {"type": "integer"}}, {"$ref": "#/components/parameters/Trace"}],
+            "get": {"operationId": "getA", "tags": ["t"], "summary": "s", "description": "od", "deprecated": False, "security": [{"key": []}, {}],
+                    "parameters": [{"name": "q", "in": "query", "required": False, "description": "qd", "schema": {"type": "array", "items": {"type": "string", "enum": ["x", "y"]}, "default": ["x"]}},
+                                   {"name": "h", "in": "header", "schema": {"type": "string", "default": "dv"}}, {"name": "c", "in": "cookie", "schema": {"type": "string"}}],
+                    "responses": {"200": {"description": "ok", "headers": {"X-Rate": {"schema": {"type": "integer"}}}, "content": {"application/json": {"schema": {"$ref": R + "Child"}}}},
+                                  "404": {"$ref": "#/components/responses/NotFound"}, "default": {"description": "other"}}},
+            "post": {"operationId": "postA", "requestBody": {"$ref": "#/components/requestBodies/Body"}, "responses": {"204": {"description": "n"}}},
+            "put": {"operationId": "putA", "requestBody": {"required": True, "content": {"multipart/form-data": {"schema": {"type": "object", "required": ["f"], "properties": {"f": {"type": "string", "format": "binary"}, "n": {"type": "number"}}}},
+                                                                                  "application/x-www-form-urlencoded": {"schema": {"$ref": R + "Base"}}}},
+                    "responses": {"200": {"description": "ok", "content": {"text/plain": {"schema": {"type": "string"}}, "application/octet-stream": {"schema": {"type": "string", "format": "binary"}}}}}}}},
+        "components": {
+            "securitySchemes": {"key": {"type": "apiKey", "in": "header", "name": "X-Key"}},
+            "parameters": {"Trace": {"name": "X-Trace", "in": "header", "required": False, "schema": {"type": "string", "format": "uuid"}}},
+            "requestBodies": {"Body": {"required": True, "content": {"application/json": {"schema": {"$ref": R + "Base"}}}}},
+            "responses": {"NotFound": {"description": "nf", "content": {"application/json": {"schema": {"type": "object", "properties": {"msg": {"type": "string"}}}}}}},
+            "schemas": {
+                "Base": {"type": "object", "title": "Base", "description": "bd", "required": ["id"], "additionalProperties": {"type": "string"},
+                         "properties": {"id": {"type": "integer", "default": 1, "example": 2}, "when": {"type": "string", "format": "date-time"}, "day": {"type": "string", "format": "date"},
+                                        "kind": {"type": "string", "enum": ["a", "b", None], "default": "a"}, "k": {"const": "fixed"}, "tags": {"type": "array", "items": {"type": "string"}, "minItems": 0},
+                                        "any": {}, "u": {"oneOf": [{"type": "integer"}, {"type": "null"}, {"$ref": R + "Leaf"}]}, "t": {"type": ["string", "null"]},
+                                        "tuple": {"type": "array", "prefixItems": [{"type": "string"}, {"type": "integer"}], "items": {"type": "boolean"}}}},
+                "Leaf": {"type": "object", "properties": {"v": {"type": "number", "default": 1.5}, "flag": {"type": "boolean", "default": True}}, "additionalProperties": False},
+                "Child": {"allOf": [{"$ref": R + "Base"}, {"type": "object", "required": ["own"], "properties": {"own": {"type": "string", "format": "uuid"}, "id": {"type": "integer", "description": "again"}},
+                                                            "additionalProperties": True}], "description": "cd"},
+                "Alias": {"$ref": R + "Leaf"}, "Wrapped": {"allOf": [{"$ref": R + "Leaf"}], "nullable": True, "default": None},
+                "IntE": {"type": "integer", "enum": [1, 2], "default": 2}, "Arr": {"type": "array", "items": {"anyOf": [{"$ref": R + "Leaf"}, {"type": "string"}]}}}}}
+
+
 def _bases():
     from checks import c05, c08
-    return {"c05b1": c05.base1(), "c08b": c08.base_b(), "c08c": c08.base_c(), "c05b2": c05.base2()}
+    return {"c05b1": c05.base1(), "c08b": c08.base_b(), "c08c": c08.base_c(), "c05b2": c05.base2(), "sink": _sink()}
 
 
 def _nodes(d, path=()):
